@@ -21,6 +21,13 @@ def run(ctx, focus):
         ("IndInv/\\Next=>IndInv'", cin + ["--init=IndInv", "--inv=IndInv", "--length=1"]),
         ("IndInv=>Flushed", cin + ["--init=IndInv", "--inv=Flushed", "--length=0"]),
         ("IndInv=>WorkerCanProceed", cin + ["--init=IndInv", "--inv=WorkerCanProceed", "--length=0"])])
+    if thorough and focus == "C04":
+        # the same inductive invariant as a machine-checked TLAPS proof (146 obligations, spec/proofs/)
+        import subprocess, os
+        p = subprocess.run([os.path.join(vf.VERIF, "bin", "prove")], stdout=subprocess.PIPE, stderr=subprocess.STDOUT, text=True)
+        if p.returncode != 0:
+            raise vf.Infra("TLAPS proof of AsyncCounters!IndInv not re-checked: %s" % p.stdout[-400:])
+        ctx.tlc_runs.append({"module": "AsyncCountersProofs", "cfg": "tlapm", "generated": 0, "distinct": 0, "summary": p.stdout.strip()[-80:]})
     hist = []
     for pol in POLICIES:
         g = ctx.tlc("AsyncGen", "Gen_Async_%s_%s" % (pol, "t" if thorough else "q"), timeout=3000)
